@@ -21,10 +21,21 @@ that of a fresh interpreter that has imported ppci, described the target and
 compiled nothing, the following ones after the earlier inputs of their group
 (the same history in every variant, so all comparisons stay like-for-like; the
 "compiled earlier" variant has a different history for every build).  Every
-build has a CPU-time budget (ITIMER_VIRTUAL) and an address-space limit.  Distinct variants are distinct interpreter
-processes (own hash seed, own address-space layout).  The "compiled earlier"
-variant does not fork: it compiles an unrelated module at both levels and then
-everything in one process.
+build has a CPU-time budget (ITIMER_VIRTUAL) and an address-space limit; a
+build that exhausts it is discarded, never judged.  Distinct variants are
+distinct interpreter processes (own hash seed, own address-space layout).  The
+"compiled earlier" variant does not fork: it compiles an unrelated module at
+both levels and then everything in one process.
+
+Narrowing against DESIGN C30 (budget set by the maintainer: <= 1500 CPU-s for
+the quick tier): quick = 4 C programs + 1 C3 program x 2 levels + 1 assembler
+input per target (132 builds x 6 processes) instead of 8 programs x 8
+processes; hash seeds 3 and 4, a second random seed, a second same-seed pair
+and a second pre-loaded process are thorough-tier only (40 C + 8 C3 programs).
+
+While one of the four open findings (all in target-independent code that every
+C/C3 compile runs through) is open, only the assembler inputs are compiled in
+the sweep; the four witness probes observe each mechanism in isolation.
 
 Workload (the shared ``cgen`` of DESIGN 2.4 does not exist yet; the design
 allows a private generator because semantic correctness is irrelevant here):
@@ -58,11 +69,11 @@ ASSUMPTIONS = ["sha256 equality of ObjectFile.save text / image bytes is byte id
                "compiled nothing before",
                "PYTHONHASHSEED=random draws a seed different from 0..4 (probability 1 - 2^-32 per run)"]
 MANIFEST_ENTRY = {
-    "text": "Every generated source is compiled in eight differently seeded / differently pre-loaded processes per target "
-            "and level; object text and linked image digests must all be equal.",
+    "text": "Every generated source is compiled in 6 (quick) / 11 (thorough) differently seeded / differently pre-loaded "
+            "processes per target and level; object text and linked image digests must all be equal.",
     "note": "Private program generator (semantics irrelevant); weak targets (m68k, msp430, xtensa, mips, avr) get the C "
-            "subset they can compile, failing builds are compared by exception type only. Target/level combinations named "
-            "by open findings are not compiled in the main sweep.",
+            "subset they can compile, failing builds are compared by exception type only. While a finding in the target "
+            "independent code generator is open, C and C3 inputs are not compiled in the main sweep (assembler inputs are).",
     "technique": "runtime monitoring: digest comparison of real compiler output across processes, hash seeds and compile "
                  "histories",
 }
